@@ -282,6 +282,16 @@ func genEntriesTok(r *Rng, tier string) string {
 	case 1:
 		n = 15 + r.Intn(20)
 	}
+	if r.Chance(5) {
+		// entries of exactly 16 bytes each: streams that end exactly on a 2 KiB writer-buffer edge (128, 256, 1024
+		// entries) or exactly at / just beyond 64 KiB (4096, 4097, 4100 entries) or at 128 KiB
+		n = []int{127, 128, 129, 256, 1024, 4095, 4096, 4097, 4100, 8192}[r.Intn(10)]
+		p := make([]string, n)
+		for i := range p {
+			p[i] = fmt.Sprintf("E(%d.%d.0;M(6b6b;i%d))", 1+i%7, i, i%100)
+		}
+		return "L(" + strings.Join(p, ";") + ")"
+	}
 	if r.Chance(4) {
 		// a stream of tens of KiB built from many tiny entries: the pooled buffer grows by doubling through
 		// 32 KiB, 64 KiB, 128 KiB
